@@ -556,7 +556,15 @@ def _poles_unc_stream(ctx, ssi):
     ctx.count("poles_cov_cases", done)
 
 
+# --- default values as regenerated obligations (Generated/Defaults.lean <- harness/translate_defaults.py; stream defaults[...])
+import defaults_stream  # noqa: E402
+from common import all_pre_build as pre_build  # noqa: E402,F401,F811  (runs EVERY translate_*.py)
+LEAN_MODULES += ["PyomaVerif.Props.WiringDefaultsC09", "PyomaVerif.Props.WiringDefaultsC12", "PyomaVerif.Props.C01StoredDefault"]
+THEOREMS += ["PV.C01StoredDefault.default_limits", "PV.C01StoredDefault.C01_default_covers_domain", "PV.C01StoredDefault.shapeOk_default_of_real", "PV.C01StoredDefault.C01_stored_default", "PV.WiringDefaults.C09_hc_defaults", "PV.WiringDefaults.C12_runparams_defaults"]
+
+
 def correspondence(ctx):
+    defaults_stream.correspondence(ctx, props=("C12",))
     import scipy.linalg
 
     from pyoma2.functions import ssi
